@@ -34,4 +34,10 @@ def containsSub (sub : List Rune) : List Rune → Bool
   | [] => sub.isEmpty
   | l@(_ :: cs) => sub.isPrefixOf l || containsSub sub cs
 
+
+theorem dropWhile_length_le' {α} (p : α → Bool) (l : List α) : (l.dropWhile p).length ≤ l.length := by
+  induction l with
+  | nil => simp
+  | cons a t ih => simp only [List.dropWhile]; split <;> simp <;> omega
+
 end RubyTi
